@@ -26,6 +26,6 @@ void harness(void) {
 	vf_md5_compress(e, copy);
 #endif
 	md5_transform(ctx, block);
-	VF_NATIVE_POST(memcmp(e, ctx->hash, sizeof(e)) == 0, "md5_transform differs from RFC 1321 block function");
+	VF_NATIVE_POST(memcmp(e, ctx->hash, sizeof(e)) == 0, "md5_transform differs from the RFC 1321 block function");
 	VF_CANARY("md5_transform harness end");
 }
